@@ -124,14 +124,44 @@ def parse_fields(line):
     return out
 
 
+CASE_TIMEOUT = int(os.environ.get('VERIF_CASE_TIMEOUT', '20'))
+MEM_LIMIT = int(os.environ.get('VERIF_MEM_LIMIT', str(3 * 1024 ** 3)))
+
+
+class _Timeout(Exception):
+    pass
+
+
+def _alarm(signum, frame):
+    raise _Timeout()
+
+
+def _limit_memory():
+    try:
+        import resource
+        resource.setrlimit(resource.RLIMIT_AS, (MEM_LIMIT, MEM_LIMIT))
+    except Exception:
+        pass
+
+
 def _impl_worker(case):
+    """one case against the real rtamt, under a wall-clock and an address-space limit"""
     from harness import impl
-    import io, contextlib
+    import io, contextlib, signal
+    old = signal.signal(signal.SIGALRM, _alarm)
+    signal.alarm(CASE_TIMEOUT)
     try:
         with contextlib.redirect_stdout(io.StringIO()):
             return impl.run_case(case)
+    except _Timeout:
+        return {'setup': {'status': 'crash', 'kind': 'Timeout', 'msg': 'no result within %d s' % CASE_TIMEOUT}, 'calls': []}
+    except MemoryError:
+        return {'setup': {'status': 'crash', 'kind': 'MemoryError', 'msg': 'address-space limit'}, 'calls': []}
     except Exception as exc:  # harness-level failure
         return {'setup': {'status': 'harness-error', 'msg': repr(exc)}, 'calls': []}
+    finally:
+        signal.alarm(0)
+        signal.signal(signal.SIGALRM, old)
 
 
 _pool = None
@@ -141,14 +171,12 @@ def pool():
     global _pool
     if _pool is None:
         ctx = multiprocessing.get_context('fork')
-        _pool = ctx.Pool(NPROC, maxtasksperchild=400)
+        _pool = ctx.Pool(NPROC, initializer=_limit_memory, maxtasksperchild=400)
     return _pool
 
 
 def run_impl(cases, chunksize=8):
-    if len(cases) <= 2:
-        return [_impl_worker(c) for c in cases]
-    return pool().map(_impl_worker, cases, chunksize)
+    return pool().map(_impl_worker, cases, chunksize if len(cases) > 64 else 1)
 
 
 def close_pool():
